@@ -2031,14 +2031,20 @@ package ion
 // its descriptor, an inline length L has L more); a NOP pad or another wrapper is refused.
 //@ func (*bitstream).validateAnnotatedValue
 //@ split returns
+//@ reveal specVarUintEndAt specVarUintValue
 //@ requires bsStream(b)
 //@ invariant loop0 [counter int] 1 <= counter && counter <= 4096
+//@ invariant loop0 [counter int, val uint64, remainingLength_cur uint64] counter <= 11 ==> remainingLength_cur == remainingLength-uint64(counter) &&
+//@    val == specVarUintValue(bsS(b).data, bsS(b).cur+1, uint64(counter-1)) && (counter == 1 || specVarUintEndAt(bsS(b).data, bsS(b).cur+1) == 0 || specVarUintEndAt(bsS(b).data, bsS(b).cur+1) >= uint64(counter))
+//@ invariant loop0 [counter int] forall k int :: 1 <= k && k < counter && k <= 10 ==> bsByte(b, k)&0x80 == 0
 //@ modifies nothing
 //@ ensures[C01,C03] old(bsAvail(b)) > 0 && !specTagVarLen(old(bsByte(b, 0))) && old(bsByte(b, 0))>>4 != 0 && old(bsByte(b, 0))>>4 != 14 &&
 //@    (old(bsByte(b, 0))>>4 != 1 || old(bsByte(b, 0))&0x0F <= 1 || old(bsByte(b, 0))&0x0F == 15) && remainingLength == 1+specTagInlineLen(old(bsByte(b, 0))) ==> err == nil
 //@ ensures[C03,C07] old(bsAvail(b)) > 0 && !specTagVarLen(old(bsByte(b, 0))) && old(bsByte(b, 0))>>4 != 1 && remainingLength != 1+specTagInlineLen(old(bsByte(b, 0))) ==> err != nil
 //@ ensures[C07] old(bsAvail(b)) > 0 && old(bsByte(b, 0))&0x0F != 15 && (old(bsByte(b, 0))>>4 == 14 || old(bsByte(b, 0))>>4 == 0) ==> err != nil
 //@ ensures[C07,C19] old(bsAvail(b)) == 0 ==> err != nil
+//@ ensures[C01,C03] old(bsAvail(b)) > 11 && specTagVarLen(old(bsByte(b, 0))) && old(bsByte(b, 0))>>4 != 0 && old(bsByte(b, 0))>>4 != 14 && specVarUintEndAt(bsS(b).data, old(bsS(b).cur)+1) != 0 &&
+//@    remainingLength == 1+specVarUintEndAt(bsS(b).data, old(bsS(b).cur)+1)+specVarUintValue(bsS(b).data, old(bsS(b).cur)+1, specVarUintEndAt(bsS(b).data, old(bsS(b).cur)+1)) ==> err == nil
 //@ safe[C06]
 
 // ---------------------------------------------------------------------------
